@@ -870,3 +870,20 @@ GROUPS["p14"] += [
       "        let curated = FstDictionary::curated();\n        let user = Arc::new(user_dictionary.clone());\n        lint_dict.add_dictionary(curated);\n        lint_dict.add_dictionary(user);",
       None),
 ]
+
+# C02: CollapseIdentifiers stretches the survivor further than it removes (the shape of seeded/C02-e) / same extent via a local
+_CI = "harper-core/src/parsers/collapse_identifiers.rs"
+GROUPS["g26"] += [
+    E("c02-collapse-removes-less-than-it-covers", ["C02"], _CI,
+      "                to_remove.extend(tok_span.start + 1..tok_span.end);",
+      "                to_remove.extend(tok_span.start + 1..tok_span.end - 1);",
+      "R-C02-condense:<CollapseIdentifiers@Parser>::parse:extent"),
+]
+GROUPS["p14"] += [
+    E("p-c02-collapse-extent-through-local", ["C02"], _CI,
+      "            let end_tok = &tokens[tok_span.end - 1];",
+      "            let last = tok_span.end - 1;\n            let end_tok = &tokens[last];", None),
+    E("p-c02-collapse-extent-inclusive", ["C02"], _CI,
+      "                to_remove.extend(tok_span.start + 1..tok_span.end);",
+      "                to_remove.extend(tok_span.start + 1..=last);", None),
+]
